@@ -265,6 +265,17 @@ func c06Regex(c *Ctx) {
 	if !c.Check(fieldFV != nil && matchFV != nil, "regex-any-of", "closure captures field and matchers", p.Pos(cl.Pos()), "", "the filter closure does not capture the field name parameter and the compiled matcher slice") {
 		return
 	}
+	// what is handed back is the filter built in THIS call for THIS field and THIS list: a filter taken from a cache keyed by
+	// less than (field, list) makes a later filter match on an earlier filter's field
+	for i, r := range Returns(rf) {
+		fresh := true
+		for _, lf := range leaves(RetVals(r)[0]) {
+			if lf != ssa.Value(mc) {
+				fresh = false
+			}
+		}
+		c.Check(fresh, "regex-any-of", fmt.Sprintf("RegexFilterFunc return[%d] is the filter built in this call", i), p.InstrPos(r), "", "RegexFilterFunc can hand back a filter that was not built in this call (`"+RenderN(RetVals(r)[0], 3)+"`): a filter remembered from an earlier call matches on that call's field and expressions, so what one channel's filter admits depends on which other filters were configured before it")
+	}
 	isFV := func(v ssa.Value, fv *ssa.FreeVar) bool {
 		if v == ssa.Value(fv) {
 			return true
